@@ -1,6 +1,7 @@
 package main
 
 import (
+	"regexp"
 	"sort"
 	"fmt"
 	"go/ast"
@@ -1507,3 +1508,5 @@ func (cs *callSite) modRefs(st *State) []string {
 	}
 	return append(out, cs.recvSliceRefs(st)...)
 }
+
+var specAppRe = regexp.MustCompile(`\((spec_[A-Za-z0-9_]+) `)
